@@ -105,7 +105,20 @@ WINDOW_GEN += ["SELECT id, rank() OVER (ORDER BY a, b DESC) AS r FROM t1 ORDER B
                "SELECT s.id FROM (SELECT id, row_number() OVER (PARTITION BY b ORDER BY a DESC, id) AS rn FROM t1) AS s WHERE s.rn = 1",
                "SELECT t1.id, count(t2.c) OVER (PARTITION BY t1.a ORDER BY t2.c NULLS LAST) AS n FROM t1 LEFT JOIN t2 ON t1.id = t2.id",
                "SELECT id, rank() OVER (ORDER BY a + b DESC NULLS LAST, id) AS r FROM t1"]
-SELECTS = SELECTS + ORDER_GEN + SETOP_TAIL + GROUP_GEN + WINDOW_GEN
+# subquery predicates x subquery shapes (what the subquery returns decides the predicate: aggregate-only select lists always give one
+# row, LIMIT 0 none, GROUP BY one per group, ...), correlated and not, in SELECT / DELETE / UPDATE
+_SUBQ = ["SELECT 1 FROM t2 WHERE t2.id = t1.id", "SELECT c FROM t2 WHERE t2.id = t1.id", "SELECT * FROM t2 WHERE t2.c > t1.a", "SELECT max(c) FROM t2 WHERE t2.id = t1.id",
+         "SELECT count(*) FROM t2 WHERE t2.id = t1.id", "SELECT count(*) FROM t2 WHERE t2.id = t1.id HAVING count(*) > 0", "SELECT c FROM t2 WHERE t2.id = t1.id GROUP BY c",
+         "SELECT sum(c) FROM t2 GROUP BY id", "SELECT DISTINCT c FROM t2 WHERE t2.c = t1.b", "SELECT c FROM t2 WHERE t2.id = t1.id ORDER BY c LIMIT 0",
+         "SELECT c FROM t2 ORDER BY id LIMIT 1 OFFSET 1", "SELECT min(c) FROM t2", "SELECT 1 FROM t2"]
+SUBQ_GEN = ["SELECT a FROM t1 WHERE %s(%s)" % (e, q) for e in ('exists', 'NOT exists') for q in _SUBQ]
+SUBQ_GEN += ["SELECT a FROM t1 WHERE b > 0 AND NOT exists(%s)" % _SUBQ[3], "SELECT a, exists(%s) AS e FROM t1" % _SUBQ[4], "SELECT a FROM t1 WHERE a IN (%s)" % _SUBQ[3],
+             "SELECT a FROM t1 WHERE a NOT IN (%s)" % _SUBQ[4], "SELECT a FROM t1 WHERE a = (%s)" % _SUBQ[3], "SELECT a FROM t1 WHERE a > (%s)" % _SUBQ[4],
+             "SELECT a FROM t1 WHERE a IN (SELECT c FROM t2 GROUP BY c HAVING count(*) > 1)", "SELECT a, (%s) AS n FROM t1" % _SUBQ[4]]
+SUBQ_DML = ["DELETE FROM t1 WHERE %s(%s)" % (e, q) for e in ('exists', 'NOT exists') for q in (_SUBQ[0], _SUBQ[3], _SUBQ[4], _SUBQ[9])]
+SUBQ_DML += ["UPDATE t1 SET a = 0 WHERE %s(%s)" % (e, q) for e in ('exists', 'NOT exists') for q in (_SUBQ[1], _SUBQ[3], _SUBQ[4])]
+SUBQ_DML += ["UPDATE t1 SET a = (%s) WHERE b > 0" % _SUBQ[4], "DELETE FROM t1 WHERE a IN (%s)" % _SUBQ[3]]
+SELECTS = SELECTS + ORDER_GEN + SETOP_TAIL + GROUP_GEN + WINDOW_GEN + SUBQ_GEN
 
 DML = [
     "DELETE FROM t1 WHERE a > 1",
@@ -123,6 +136,7 @@ DML = [
     "DELETE FROM t1 WHERE a = 0",
     "DELETE FROM t1",
 ]
+DML = DML + SUBQ_DML
 
 
 def render(sql, dialect):
@@ -278,7 +292,7 @@ def check_member(sql, dialect, R, D, timeout_ms=120000):
             b = ev2.query(back)
             if getattr(ast, 'order_by', None) and hasattr(a, '_ranks') and hasattr(b, '_ranks'):
                 # ordered result: compare as sequences = bags of (row, position), positions being unique under the no-ties assumption
-                a, b = with_rank(a), with_rank(b)
+                a, b = SR.with_rank(a), SR.with_rank(b)
                 info['ordered'] = True
     except SR.Unsupported as e:
         return dict(info, status='unsupported', reason=str(e))
